@@ -1,4 +1,5 @@
 import PharmpyModel.C17.Sched
+import PharmpyProofs.C17.GraphLemmas
 /-
   Helper lemmas for C17 (core Lean only, no Mathlib).
 -/
@@ -251,5 +252,149 @@ theorem evalAlong_schedule (tg : TaskGraph κ V) (order : List κ) :
       exact ⟨k :: s, hs.cons_cons _, by simp [runSeq, hf, hr]⟩
 
 end Sched
+
+/-! ### Task table and the executed workflow -/
+
+theorem Table.get_cons (k : Nat) (t : Task) (tb : Table) (x : Nat) :
+    Table.get ((k, t) :: tb) x = if k = x then t else Table.get tb x := by
+  unfold Table.get
+  by_cases h : k = x
+  · simp [h]
+  · have : (k == x) = false := by simpa using h
+    simp [this, h]
+
+theorem Table.get_zip_not_mem (ks : List Nat) : ∀ (vs : List Task) (tb : Table) (x : Nat), x ∉ ks →
+    Table.get (ks.zip vs ++ tb) x = Table.get tb x := by
+  induction ks with
+  | nil => intro vs tb x _; simp
+  | cons k ks ih =>
+    intro vs tb x hx
+    cases vs with
+    | nil => simp
+    | cons v vs =>
+      simp only [List.mem_cons, not_or] at hx
+      simp only [List.zip_cons_cons, List.cons_append]
+      rw [Table.get_cons]
+      have : k ≠ x := fun h => hx.1 h.symm
+      simp [this, ih vs tb x hx.2]
+
+theorem Table.get_zip_mem (ks : List Nat) : ∀ (vs : List Task) (tb : Table), ks.Nodup →
+    ∀ p ∈ ks.zip vs, Table.get (ks.zip vs ++ tb) p.1 = p.2 := by
+  induction ks with
+  | nil => intro vs tb _ p hp; simp at hp
+  | cons k ks ih =>
+    intro vs tb hnd p hp
+    cases vs with
+    | nil => simp at hp
+    | cons v vs =>
+      simp only [List.zip_cons_cons, List.mem_cons] at hp
+      simp only [List.zip_cons_cons, List.cons_append]
+      rw [Table.get_cons]
+      have hnd' := List.nodup_cons.mp hnd
+      rcases hp with rfl | hp
+      · simp
+      · have hmem : p.1 ∈ ks := (List.of_mem_zip (a := p.1) (b := p.2) hp).1
+        have : k ≠ p.1 := fun h => hnd'.1 (h ▸ hmem)
+        simp [this, ih vs tb hnd'.2 p hp]
+
+/-- Map form: looking the fresh ids up gives back the tasks stored for them. -/
+theorem Table.map_get_zip (ks : List Nat) (vs : List Task) (tb : Table) (hnd : ks.Nodup)
+    (hlen : ks.length = vs.length) : ks.map (Table.get (ks.zip vs ++ tb)) = vs := by
+  have h1 : ∀ F : Nat → Task, ks.map F = (ks.zip vs).map (fun p => F p.1) := by
+    intro F
+    have : (ks.zip vs).map (fun p => F p.1) = ((ks.zip vs).map Prod.fst).map F := by
+      rw [List.map_map]; rfl
+    rw [this, List.map_fst_zip (by omega)]
+  rw [h1, List.map_congr_left (Table.get_zip_mem ks vs tb hnd)]
+  exact List.map_snd_zip (by omega)
+
+theorem filter_map_of_map_eq {α β γ δ : Type} {f : α → γ} {g : β → γ} {l₁ : List α} {l₂ : List β}
+    (h : l₁.map f = l₂.map g) (P : γ → Bool) (N : γ → δ) :
+    (l₁.filter (P ∘ f)).map (N ∘ f) = (l₂.filter (P ∘ g)).map (N ∘ g) := by
+  have a : (l₁.filter (P ∘ f)).map (N ∘ f) = ((l₁.map f).filter P).map N := by
+    rw [List.filter_map, List.map_map]
+  have b : (l₂.filter (P ∘ g)).map (N ∘ g) = ((l₂.map g).filter P).map N := by
+    rw [List.filter_map, List.map_map]
+  rw [a, b, h]
+
+theorem range'_fresh {next n : Nat} {l : List Nat} (h : ∀ x ∈ l, x < next) :
+    ∀ y ∈ List.range' next n, y ∉ l := by
+  intro y hy hmem
+  have := h y hmem
+  simp at hy
+  omega
+
+theorem zip_range_fst (olds : List Nat) (next : Nat) :
+    (olds.zip (List.range' next olds.length)).map (·.1) = olds :=
+  List.map_fst_zip (by simp)
+
+theorem zip_range_snd (olds : List Nat) (next : Nat) :
+    (olds.zip (List.range' next olds.length)).map (·.2) = List.range' next olds.length :=
+  List.map_snd_zip (by simp)
+
+/-- `insert_context`: the tasks that do not take the context keep their
+    relative order, the context-taking ones follow in their relative order with
+    the context in front of their static inputs. -/
+theorem insertContext_spec (st : St) (g : DiGraph) (hwf : DiGraph.WF g) (hfresh : ∀ x ∈ g.nodes, x < st.next) :
+    DiGraph.WF (insertContext st g).2 ∧
+    (insertContext st g).2.nodes.map (insertContext st g).1.tb.get =
+      (g.nodes.map st.tb.get).filter (fun t => !t.takesCtx) ++
+      ((g.nodes.map st.tb.get).filter (fun t => t.takesCtx)).map addCtx := by
+  unfold insertContext
+  simp only
+  generalize holds : g.nodes.filter (fun t => (st.tb.get t).takesCtx) = olds
+  have hsub : ∀ o ∈ olds, o ∈ g.nodes ∧ (st.tb.get o).takesCtx = true := by
+    intro o ho; rw [← holds] at ho; simpa using ho
+  have holdsnd : olds.Nodup := by rw [← holds]; exact hwf.nodupNodes.sublist List.filter_sublist
+  have hnewsfresh := range'_fresh (n := olds.length) hfresh
+  obtain ⟨hwf', hnodes, _⟩ := relabelSeq_spec (olds.zip (List.range' st.next olds.length)) g hwf
+    (by rw [zip_range_fst]; exact holdsnd)
+    (by rw [zip_range_fst]; exact fun o ho => (hsub o ho).1)
+    (by rw [zip_range_snd]; exact List.nodup_range')
+    (by rw [zip_range_snd]; exact hnewsfresh)
+  refine ⟨hwf', ?_⟩
+  rw [hnodes, zip_range_fst, zip_range_snd, List.map_append]
+  congr 1
+  · -- untouched tasks: old ids, looked up in the old part of the table
+    have hfilt : g.nodes.filter (fun x => !olds.contains x) = g.nodes.filter ((fun t => !t.takesCtx) ∘ st.tb.get) := by
+      apply List.filter_congr
+      intro x hx
+      simp only [Function.comp, List.contains_eq_mem]
+      by_cases hc : (st.tb.get x).takesCtx = true
+      · have : x ∈ olds := by rw [← holds]; simp [hx, hc]
+        simp [this, hc]
+      · have : x ∉ olds := fun hm => hc (hsub x hm).2
+        simp [this, hc]
+    rw [hfilt, List.filter_map]
+    apply List.map_congr_left
+    intro x hx
+    have hx' : x ∈ g.nodes := (List.mem_filter.mp hx).1
+    exact Table.get_zip_not_mem _ _ _ _ (fun hm => hnewsfresh x hm hx')
+  · rw [Table.map_get_zip _ _ _ List.nodup_range' (by simp)]
+    rw [← holds, List.filter_map, List.map_map]
+    rfl
+
+/-- The relabel-every-task pass of `execute_workflow`: same tasks, same order, fresh nodes. -/
+theorem relabelPass_spec (st : St) (g : DiGraph) (hwf : DiGraph.WF g) (hfresh : ∀ x ∈ g.nodes, x < st.next) :
+    DiGraph.WF (relabelPass st g).2 ∧
+    (relabelPass st g).2.nodes = List.range' st.next g.nodes.length ∧
+    (relabelPass st g).1.next = st.next + g.nodes.length ∧
+    (relabelPass st g).2.nodes.map (relabelPass st g).1.tb.get = g.nodes.map st.tb.get := by
+  unfold relabelPass
+  simp only
+  have hnewsfresh := range'_fresh (n := g.nodes.length) hfresh
+  obtain ⟨hwf', hnodes, _⟩ := relabelSeq_spec (g.nodes.zip (List.range' st.next g.nodes.length)) g.copy
+    (DiGraph.copy_wf hwf)
+    (by rw [zip_range_fst]; exact hwf.nodupNodes)
+    (by rw [zip_range_fst]; exact fun o ho => ho)
+    (by rw [zip_range_snd]; exact List.nodup_range')
+    (by rw [zip_range_snd]; exact hnewsfresh)
+  have hempty : g.nodes.filter (fun x => !g.nodes.contains x) = [] := by
+    simp [List.filter_eq_nil_iff]
+  rw [zip_range_fst, zip_range_snd] at hnodes
+  simp only [DiGraph.copy_nodes, hempty, List.nil_append] at hnodes
+  refine ⟨hwf', hnodes, trivial, ?_⟩
+  rw [hnodes]
+  exact Table.map_get_zip _ _ _ List.nodup_range' (by simp)
 
 end Pharmpy.C17
